@@ -148,27 +148,28 @@ structure RawTag where
   selfClosing : Bool
   deriving DecidableEq, Repr
 
+/-- an attribute must be followed by white space or the end of the tag -/
+def followOK (s : Str) : Bool :=
+  match s with
+  | c :: _ => isSpace c || c = '>' || c = '/'
+  | [] => false
+
 /-- attributes up to `>` / `/>`; `fuel` bounds the number of attributes -/
 def readAttrs : Nat → Str → Option (List (Str × Str) × Bool)
   | 0, _ => none
   | fuel + 1, s =>
-    match s.dropWhile isSpace with
-    | '>' :: _ => some ([], false)
-    | '/' :: '>' :: _ => some ([], true)
-    | s1 =>
-      match s1.span isNameChar with
-      | ([], _) => none
-      | (n, '=' :: q :: s2) =>
+    if (s.dropWhile isSpace).head? = some '>' then some ([], false)
+    else if (s.dropWhile isSpace).take 2 = ['/', '>'] then some ([], true)
+    else if ((s.dropWhile isSpace).span isNameChar).1 = [] then none
+    else
+      match ((s.dropWhile isSpace).span isNameChar).2 with
+      | '=' :: q :: s2 =>
         if q = '\'' ∨ q = '"' then
           match readValue q s2 {} with
           | some (v, s3) =>
-            match s3 with
-            | c :: _ =>
-              -- an attribute must be followed by white space or the end of the tag
-              if isSpace c ∨ c = '>' ∨ c = '/' then
-                (readAttrs fuel s3).map fun r => ((n, v) :: r.1, r.2)
-              else none
-            | [] => none
+            if followOK s3 then
+              (readAttrs fuel s3).map fun r => ((((s.dropWhile isSpace).span isNameChar).1, v) :: r.1, r.2)
+            else none
           | none => none
         else none
       | _ => none
